@@ -162,7 +162,7 @@ def describe(exp):
     return kind
 
 
-def confirm(contract, model):
+def confirm(contract, model, frame=False):
     """Replay one counter-model natively.  -> dict(confirmed, expected, observed, args)"""
     if not model or 'args' not in model:
         return {'confirmed': False, 'why': 'no model'}
@@ -175,10 +175,38 @@ def confirm(contract, model):
         job = make_job(contract, model['args'], reads)
     except Exception as exc:   # never let a replay problem kill the run: the verdict stands, unconfirmed
         return {'confirmed': False, 'why': 'contract not concretely evaluable: %r' % (exc,), 'args': _printable(model)}
+    if frame:
+        # a frame obligation ('the call changes none of its arguments'): compare the arguments after the call with before
+        job['report_args'] = True
+        obs = native_calls([job])[0]
+        after = obs.get('args_after')
+        changed = after is not None and after != job['args']
+        return {'confirmed': changed, 'expected': 'arguments after the call equal the arguments before it: %s' % json.dumps(job['args'])[:400],
+                'observed': obs, 'args': _printable(model), 'job': job}
     obs = native_calls([job])[0]
     ok = agrees(contract, exp, ctx, obs)
+    if ok is not False and _has_time(model['args']):
+        # a refutation that rests on the host time zone (LOCAL_OFFSET != 0 in the model) shows only under such a zone
+        for tz in ('Asia/Kolkata', 'America/New_York', 'Pacific/Kiritimati'):
+            job_tz = dict(job, tz=tz)
+            obs_tz = native_calls([job_tz])[0]
+            if agrees(contract, exp, ctx, obs_tz) is False:
+                return {'confirmed': True, 'expected': describe(exp), 'observed': obs_tz, 'args': _printable(model),
+                        'job': job_tz, 'host_time_zone': tz}
     return {'confirmed': ok is False, 'expected': describe(exp), 'observed': obs,
             'args': _printable(model), 'job': job}
+
+
+def _has_time(v):
+    import datetime as _dt
+    import time as _time
+    if isinstance(v, (_dt.datetime, _time.struct_time)):
+        return True
+    if isinstance(v, dict):
+        return '__datetime__' in v or '__struct_time__' in v or any(_has_time(x) for x in v.values())
+    if isinstance(v, (list, tuple)):
+        return any(_has_time(x) for x in v)
+    return False
 
 
 def _has_abstract(v):
@@ -205,6 +233,63 @@ INT_EDGES = sorted({s * (2 ** k) + d for k in (0, 7, 8, 15, 16, 31, 32, 63, 64, 
                     for d in (-2, -1, 0, 1, 2)} | {0, 1, 2, -1, 255, 256, 127, 128, 70000, -70000})
 
 
+SPECIAL_STRINGS = ['', 'a', '\ufeff', '\ufeffkey', '\ufeff\ufeffbye', 'k\ufeff', '\x00', 'a\x00b', 'é', '€uro', '\U0001F600',
+                   '\u2028', '\xa0x', 'x' * 255, 'é' * 127, ' lead', 'trail ', '\r\n']
+_CORPUS = []
+
+
+def wire_corpus():
+    """Grammar-shaped octet strings with boundary content (what random octets practically never are): length-prefixed
+    strings with unusual first / last characters, 8-octet timestamps around the representable range, reference-encoded
+    tables, and whole frames of every kind whose bodies begin / end with the frame-end octet."""
+    if _CORPUS:
+        return list(_CORPUS)
+    import random as _random
+    import struct as _struct
+    from spec import ref
+    rng = _random.Random(7)
+    out = []
+    for s in SPECIAL_STRINGS:
+        u = s.encode('utf-8')
+        if len(u) <= 255:
+            out += [bytes([len(u)]) + u, bytes([len(u)]) + u + b'rest']
+        out += [_struct.pack('>I', len(u)) + u, _struct.pack('>I', len(u)) + u + b'\xce']
+    stamps = [0, 1, 2 ** 32 - 1, 2 ** 32, 253402300799, 253402300800, 253402300799999, 253402300800000, 10 ** 15,
+              2 ** 63 - 1, 2 ** 63, 2 ** 64 - 1]
+    out += [_struct.pack('>Q', t) for t in stamps]
+    tables = []
+    for _ in range(8):
+        try:
+            tables.append(ref.enc_table(ref.gen_table(rng, 2)))
+        except ref.Refused:
+            pass
+    tables += [b'\x00\x00\x00\x00'] + [ref.enc_table({'t': t}) for t in ('\ufeffx', True, 2 ** 40)]
+    out += tables
+    out += [b'T' + _struct.pack('>Q', t) for t in stamps[:8]]
+
+    def frame(kind, channel, payload):
+        return bytes([kind]) + _struct.pack('>HI', channel, len(payload)) + payload + b'\xce'
+    bodies = [b'', b'x', b'\xce', b'payload\xce\xce\xce', b'\xce' * 9, b'\xcebody', b'\x00' * 5, frame(3, 1, b'inner')]
+    for ch in (0, 1, 32767, 32768, 65535):
+        for b in bodies[:4] if ch else bodies:
+            out.append(frame(3, ch, b))
+    out += [frame(8, ch, b'') for ch in (0, 1, 5, 65535)] + [b'AMQP\x00\x00\x09\x01', b'AMQP\x01\x01\x00\x09']
+    ack = _struct.pack('>IQB', 0x003C0050, 2 ** 63, 1)
+    out += [frame(1, ch, ack) for ch in (0, 40000)]
+    for s in ('\ufeffq', 'q', ''):
+        u = s.encode()
+        for t in tables[:3]:
+            out.append(frame(1, 1, _struct.pack('>IH', 0x0032000A, 0) + bytes([len(u)]) + u + b'\x1f' + t))       # Queue.Declare
+        out.append(frame(1, 2, _struct.pack('>I', 0x003C001E) + bytes([len(u)]) + u))                              # Basic.Cancel-ish
+    for size in (0, 1, 2 ** 63 - 1, 2 ** 63, 2 ** 64 - 1):
+        out.append(frame(2, 1, _struct.pack('>HHQH', 60, 0, size, 0)))
+        out.append(frame(2, 7, _struct.pack('>HHQH', 60, 0, size, 0x9040) + b'\x01a' + b'\x02' + _struct.pack('>Q', stamps[3])))
+    for size in (2 ** 31, 2 ** 32 - 8, 2 ** 32 - 1):
+        out.append(bytes([3]) + _struct.pack('>HI', 1, size) + b'hello\xce')
+    _CORPUS.extend(out)
+    return list(out)
+
+
 def sample_values(label, rng, n):
     """Concrete inputs for one type class (boundaries first, then random)."""
     if label == 'int':
@@ -217,12 +302,13 @@ def sample_values(label, rng, n):
         return [None]
     if label in ('bytes', 'bytearray'):
         out = [b'', b'\x00', b'\xff', b'\xce', b'AMQP', bytes(range(8)), b'\x00' * 4, b'\xff' * 9]
+        out += [b'\xce' * 131065, b'AMQP' * 40000]   # beyond the maximum frame size (early: job lists are capped)
+        out += wire_corpus()
         out += [bytes(rng.randrange(256) for _ in range(rng.randrange(0, 24))) for _ in range(n)]
-        out += [b'\xce' * 131065, b'AMQP' * 40000]   # beyond the maximum frame size
         return [bytearray(x) for x in out] if label == 'bytearray' else out
     if label == 'str':
         pool = ['', 'a', '0', 'ab c', 'é', '€uro', '\U0001F600', 'x' * 127, 'x' * 128, 'x' * 129, 'x' * 255,
-                'x' * 256, 'x' * 257, 'é' * 127, 'é' * 128, '\ud800', 'a.b-c_d:e@f#g,h/i j']
+                'x' * 256, 'x' * 257, 'é' * 127, 'é' * 128, '\ud800', 'a.b-c_d:e@f#g,h/i j'] + SPECIAL_STRINGS
         alphabet = 'abcXYZ019-_.:@#,/ é€\U0001F600!\n'
         pool += [''.join(rng.choice(alphabet) for _ in range(rng.randrange(0, 12))) for _ in range(n)]
         return pool
